@@ -32,6 +32,13 @@ inductive Value
   | str (s : String)
 deriving Repr, DecidableEq
 
+instance : DecidableEq (Except Err Value) := fun a b =>
+  match a, b with
+  | .ok x, .ok y => if h : x = y then isTrue (by rw [h]) else isFalse (by intro e; cases e; exact h rfl)
+  | .error x, .error y => if h : x = y then isTrue (by rw [h]) else isFalse (by intro e; cases e; exact h rfl)
+  | .ok _, .error _ => isFalse (by intro e; cases e)
+  | .error _, .ok _ => isFalse (by intro e; cases e)
+
 def pad2 (n : Nat) : String := if n < 10 then "0" ++ toString n else toString n
 
 /-- decimal digits only (what the property's "string forms of numbers" means); anything else is out of model -/
